@@ -9,10 +9,13 @@ Transcribes (repaired tree, see findings/C20.json):
 * pyatv/protocols/airplay/utils.py:294     dbfs_to_pct   (`level < DBFS_MIN` clamp)
 * pyatv/core/facade.py:464                 FacadeAudio.volume / set_volume (range guards),
                                            volume_up / volume_down (plain relay)
-* pyatv/protocols/raop/__init__.py:273     RaopAudio._volume_changed, volume, set_volume,
-                                           volume_up, volume_down (+-5, one-sided clamp)
+* pyatv/protocols/raop/__init__.py:273     RaopAudio._volume_changed, has_changed_volume, volume,
+                                           set_volume, volume_up, volume_down (+-5, one-sided clamp)
+* pyatv/protocols/raop/__init__.py:378     RaopStream.stream_file: user-set level vs the receiver's
+                                           `initialVolume` at stream start
 * pyatv/protocols/mrp/__init__.py:850      MrpAudio.volume, _checked_volume, set_volume,
-                                           volume_up, volume_down (absolute volume control)
+                                           volume_up, volume_down (absolute volume control),
+                                           _volume_did_change (updates for other output devices)
 
 Numbers are exact rationals; every floating-point operation of the source is one
 application of the parameter `rnd` (the driver instantiates it with `id` = exact
@@ -179,6 +182,11 @@ inductive Op
   | read                -- `atv.audio.volume`
   | report (x : FVal)   -- RAOP: some protocol dispatched UpdatedState.Volume x;
                         -- MRP: the device reported a level and `_volume` became x
+  | streamStart (init : Option FVal)
+                        -- RAOP only: one `stream.stream_file(...)`; `init` = the dBFS level the
+                        -- receiver advertises as `initialVolume` (a float), `none` = not advertised
+  | reportOther (x : FVal)
+                        -- MRP only: VolumeDidChange addressed to another output device UID
 
 /-! ### facade over RaopAudio -/
 
@@ -230,6 +238,18 @@ def Raop.step (s : Raop) : Op → Raop × List Ev
     match pctToDbfsF rnd x with
     | .error e => (s, [.logged e])
     | .ok d => (⟨some d⟩, [])
+  | .streamStart init =>
+    -- RaopStream.stream_file: `if not audio.has_changed_volume and "initialVolume" in info`
+    -- adopt the receiver's level (after the range check, else ProtocolError), otherwise
+    -- `await audio.set_volume(audio.volume)` now that a stream client exists
+    match s.ctx, init with
+    | none, some iv =>
+      if FVal.le iv (.fin dbfsMax) then (⟨some iv⟩, []) else (s, [.raised .protocol])
+    | _, _ =>
+      match Raop.volume rnd s with
+      | .error e => (s, [.raised e])
+      | .ok v => Raop.setVolume rnd s v
+  | .reportOther _ => (s, [])      -- not a RAOP operation (the driver rejects it)
 
 /-- run a history; one event list per operation -/
 def Raop.run (s : Raop) : List Op → List (List Ev)
@@ -271,6 +291,8 @@ def Mrp.step (s : Mrp) : Op → Mrp × List Ev
     | .error e => (s, [.raised e])
     | .ok r => (s, [.ret r])
   | .report x => (⟨x⟩, [])
+  | .reportOther _ => (s, [])      -- `if inner.outputDeviceUID == self.device_uid` is false: ignored
+  | .streamStart _ => (s, [])      -- not an MRP operation (the driver rejects it)
 
 def Mrp.run (s : Mrp) : List Op → List (List Ev)
   | [] => []
